@@ -55,3 +55,24 @@ loop_invariant(f"{C}::Calibrator.update_samplers_id_table", 1, over="samplers",
                     "forall(lambda a, b: implies(a in self.samplers_id_table and b in self.samplers_id_table and "
                     "self.samplers_id_table[a] == self.samplers_id_table[b], a == b))"],
                props=["C18"])
+
+# ---- thin callers: replacing samplers / scheduler only ever EXTENDS the table ------------------------------------
+_KEEP = ("forall(lambda a: implies(a in old(self.samplers_id_table), a in self.samplers_id_table and "
+         "self.samplers_id_table[a] == old(self.samplers_id_table)[a]))")
+_INJ = ("forall(lambda a, b: implies(a in self.samplers_id_table and b in self.samplers_id_table and "
+        "self.samplers_id_table[a] == self.samplers_id_table[b], a == b))")
+_NONEMPTY = "exists(lambda a: a in self.samplers_id_table)"
+
+klass("BaseScheduler", fields={"_samplers": "seq[opaque:BaseSampler]"})
+contract(f"{C}::Calibrator.set_samplers", params={"samplers": "seq[opaque:BaseSampler]"}, props=["C18"],
+         self_type="Calibrator", requires=[_NONEMPTY, _INJ, "len(samplers) >= 1"],
+         ensures=[_KEEP, _INJ,
+                  "forall(range(0, len(samplers)), lambda j: type(samplers[j]).__name__ in self.samplers_id_table)"],
+         modifies=["self.samplers_id_table[*]", "self.scheduler._samplers"],
+         notes="self.scheduler is an opaque scheduler object: the store into its _samplers attribute is not modelled")
+
+contract(f"{C}::Calibrator.set_scheduler", params={"scheduler": "opaque:BaseScheduler"}, props=["C18"],
+         requires=[_NONEMPTY, _INJ],
+         ensures=[_KEEP, _INJ, "self.scheduler is scheduler",
+                  "forall(range(0, len(scheduler.samplers)), lambda j: type(scheduler.samplers[j]).__name__ in self.samplers_id_table)"],
+         modifies=["self.samplers_id_table[*]", "self.scheduler"])
